@@ -44,3 +44,9 @@ func Symbolic() bool
 // Leaked lets every goroutine run until nothing can move, then names the goroutines (other than the
 // caller) that still exist; "" when there are none.
 func Leaked() string
+
+// Deviations sets the budget of delay-bounded schedule exploration: from here on, at every point
+// where the running goroutine blocks and several others are runnable, the canonical choice (the
+// oldest runnable goroutine) is free and every other choice costs one unit; all schedules within
+// the budget are explored. 0 switches it off.
+func Deviations(k int)
